@@ -42,7 +42,7 @@ def zeroes(fk, what):
     return {"ok": False, "acc0": what == "acc", "mag0": what == "mag", "gyr0": what == "gyr", "accmag0": what in ("acc", "mag"), "all0": True}[fk]
 
 
-def history(u, pattern, seed, cfg):
+def history(u, pattern, seed, cfg, thin=False):
     R = core.g_rot(u)
     n = SLOT * NSLOTS
     rng = core.rng(seed, "c13", u)
@@ -53,7 +53,8 @@ def history(u, pattern, seed, cfg):
     gyr = rng.normal(size=(n, 3)) * 1e-3
     ga, aa, ma = gyr.copy(), acc.copy(), mag.copy()
     for i, fk in enumerate(pattern):
-        sl = slice(i * SLOT, (i + 1) * SLOT)
+        # a dropout lasts the whole slot, or (thin) only its first sample: single-sample dropouts
+        sl = slice(i * SLOT, i * SLOT + 1) if thin else slice(i * SLOT, (i + 1) * SLOT)
         if zeroes(fk, "acc"):
             aa[sl] = 0.0
         if zeroes(fk, "mag"):
@@ -77,14 +78,18 @@ def run_cfg(args):
     t.traces = []
     can_stream = cfg["f"] in ("Madgwick", "Mahony", "EKF", "UKF", "AQUA", "ROLEQ", "Fourati")
     for pi, pattern in enumerate(patterns):
+        forced_thin = None
+        if isinstance(pattern, dict):
+            pattern, forced_thin = pattern["pattern"], pattern["thin"]
         u = TRUTHS[pi % len(TRUTHS)]
         stream = can_stream and pi % 2 == 1
-        clean, faulted = history(u, pattern, seed, cfg)
+        thin = (pi % 3 == 2) if forced_thin is None else forced_thin
+        clean, faulted = history(u, pattern, seed, cfg, thin=thin)
         kinds = sorted(set(pattern) - {"ok"})
         visible = [fk for fk in kinds if any(us[w] and zeroes(fk, w) for w in ("acc", "mag", "gyr"))]
-        case = {"cfg": cname, "pattern": pattern, "truth": u}
+        case = {"cfg": cname, "pattern": pattern, "truth": u, "single_sample_dropouts": thin}
         t.calls += 2
-        t.keys.add((cname, tuple(pattern)))
+        t.keys.add((cname, tuple(pattern), thin))
         try:
             ref = np.asarray(FL.batch(cfg, *clean, extra=extra)[1], dtype=float)
         except Exception as e:  # noqa
@@ -155,7 +160,7 @@ def run_cfg(args):
         for i, ev in enumerate(events):
             vis = any(us[w] and zeroes(pattern[i], w) for w in ("acc", "mag", "gyr"))
             since = 0 if vis else since + 1
-            if since >= RECOVER and not ev["close"]:
+            if since >= RECOVER and pattern[0] == "ok" and not ev["close"]:
                 t.fail("C13|%s|%s|not-recovered" % (cname, "+".join(visible) or "no-visible-fault"),
                        dict(case, slot=i, angle=angle(out[(i + 1) * SLOT - 1], ref[(i + 1) * SLOT - 1]), tol=tol))
                 break
@@ -184,6 +189,13 @@ def run(chk):
     else:
         pats_used = pats
         chk.exhaustive = True
+    # always there, in both widths: one dropout run of one slot at the very start and one in the middle, of every kind
+    n_slots = len(pats[0])
+    for kind in ("acc0", "mag0", "gyr0", "accmag0", "all0"):
+        for at in (0, 5):
+            pat = [kind if i == at else "ok" for i in range(n_slots)]
+            if pat in pats:
+                pats_used = pats_used + [{"pattern": pat, "thin": True}, {"pattern": pat, "thin": False}]
     jobs = []
     for ti in range(len(UNDER_TEST)):
         step = 16 if quick else 260
